@@ -27,6 +27,7 @@ class Interp(object):
         self.yield_hook = None
         self.gen_depth = 0
         self.ghost = {}
+        self.loop_guards = []                    # containers that outlive an iteration of a contracted loop (see guard_loop)
 
     # ------------------------------------------------------------------ module loading
     def load_module(self, name):
@@ -591,6 +592,13 @@ class Interp(object):
         self.mutations.append((op, origin, self.where(node), attr, obj))
         if op == 'setattr':
             return      # attribute stores are judged by the write-set analysis (C01), not here
+        for g in self.loop_guards:
+            if id(obj) in g['ids'] and id(obj) not in g['allowed']:
+                # soundness condition of the loop rules: an arbitrary iteration is analysed with the state the contract describes;
+                # a container that was created before the loop and is mutated in the body through a name the contract does not
+                # cover (an alias) carries state from one iteration to the next behind the rule's back
+                self.ctx.oblige('loop rule (%s): %s at line %s mutates a container that outlives the iteration and is not covered by the loop contract'
+                                % (g['label'], op, getattr(node, 'lineno', '?')), z3.BoolVal(False), self.where(node), 'frame')
         # 'ViewState': state owned by the view object itself (a cache); its mutation is justified by the rely/guarantee
         # obligations of the contract that declares it, not by freshness
         ok = origin in ('Fresh', 'Ghost', 'ViewState', None) and not isinstance(obj, SCell)
@@ -834,12 +842,15 @@ class Interp(object):
         if ctx.branch(k < base.n, 'loop continues'):
             x = bi.next_(self, it, node)
             self.assign(node.target, x, env)
+            self.loop_guards.append(self.guard_loop(node, env, spec, label))
             try:
                 self.exec_block(node.body, env)
             except _Continue:
                 pass
             except _Break:
                 return
+            finally:
+                self.loop_guards.pop()
             st2 = LoopState(self, env, SInt(base.pos))
             st2.k0 = SInt(k0)
             ctx.oblige('%s: invariant preserved' % label, spec.invariant(st2), self.where(node), 'inv-step')
@@ -917,6 +928,7 @@ class Interp(object):
             st.x = x
             st.base = base
             st.trace_start = len(self.trace)
+            self.loop_guards.append(self.guard_loop(node, env, spec, label))
             try:
                 self.exec_block(node.body, env)
             except _Continue:
@@ -928,6 +940,8 @@ class Interp(object):
                 ctx.failed_segment = (label, dout)
                 ctx.out = Seq(smt.fresh_arr('after_exc'), z3.IntVal(0), 'list', 'Ghost')
                 raise
+            finally:
+                self.loop_guards.pop()
             spec.delta(st, x, dout)
             if spec.invariant is not None:
                 st2 = LoopState(self, env, SInt(base.pos))
@@ -955,6 +969,33 @@ class Interp(object):
                 ls.k0 = SInt(k0)
                 spec.on_exit(ls, z3.simplify(base.n - k0))
             self.exec_block(node.orelse, env)
+
+    def guard_loop(self, node, env, spec, label):
+        """the containers reachable from the local variables when a contracted loop starts; those bound to names the contract
+        covers (assigned / mutated in the body, hence havocked, or declared in spec.types) may be mutated by the body"""
+        kinds = (Seq, PyList, bi.SDict, bi.ADict, bi.ASet, bi.ACounter, bi.SDeque)
+        covered = set(spec.types) | set(spec.extra_havoc)
+        for n in ast.walk(node):
+            if isinstance(n, ast.Name) and isinstance(n.ctx, (ast.Store, ast.Del)):
+                covered.add(n.id)
+            if isinstance(n, ast.Call) and isinstance(n.func, ast.Attribute) and n.func.attr in MUTATORS and isinstance(n.func.value, ast.Name):
+                covered.add(n.func.value.id)
+            if isinstance(n, ast.Subscript) and isinstance(n.ctx, (ast.Store, ast.Del)) and isinstance(n.value, ast.Name):
+                covered.add(n.value.id)
+            if isinstance(n, ast.AugAssign) and isinstance(n.target, ast.Name):
+                covered.add(n.target.id)
+        ids, allowed = set(), set()
+        e = env
+        depth = 0
+        while e is not None and depth < 3:          # the activation's own frames (closures), not the module globals
+            for nm, v in e.vars.items():
+                if isinstance(v, kinds) and getattr(v, 'origin', None) not in ('Source',):
+                    ids.add(id(v))
+                    if nm in covered:
+                        allowed.add(id(v))
+            e = e.parent
+            depth += 1
+        return {'ids': ids, 'allowed': allowed, 'label': label}
 
     def havoc(self, node, env, spec):
         assigned, mutated, names = set(), set(), set()
@@ -1077,11 +1118,17 @@ class Interp(object):
         if self.truth(self.eval(node.test, env)):
             st.trace_start = len(self.trace)
             ctx.in_iteration = (label, None)
+            self.loop_guards.append(self.guard_loop(node, env, spec, label))
+            broke = False
             try:
                 self.exec_block(node.body, env)
             except _Continue:
                 pass
             except _Break:
+                broke = True
+            finally:
+                self.loop_guards.pop()
+            if broke:
                 if getattr(spec, 'on_break', None) is not None:
                     spec.on_break(st)        # the iteration that leaves the loop: its per-iteration obligations
                 return
